@@ -1,4 +1,4 @@
 SPECIFICATION TraceSpec
-INVARIANT I14
+INVARIANT J14
 POSTCONDITION TraceAccepted
 CHECK_DEADLOCK FALSE
